@@ -95,6 +95,25 @@ impl Dump for syn::Generics {
     }
 }
 
+impl Dump for darling::ast::Generics<darling::ast::GenericParam> {
+    fn dump(&self) -> Value {
+        let mut g = syn::Generics::default();
+        for p in &self.params {
+            g.params.push(match p {
+                darling::ast::GenericParam::Type(t) => syn::GenericParam::Type(t.clone()),
+                darling::ast::GenericParam::Lifetime(l) => syn::GenericParam::Lifetime(l.clone()),
+                darling::ast::GenericParam::Const(c) => syn::GenericParam::Const(c.clone()),
+            });
+        }
+        if !g.params.is_empty() {
+            g.lt_token = Some(Default::default());
+            g.gt_token = Some(Default::default());
+        }
+        g.where_clause = self.where_clause.clone();
+        g.dump()
+    }
+}
+
 impl<V: Dump, F: Dump> Dump for darling::ast::Data<V, F> {
     fn dump(&self) -> Value {
         match self {
